@@ -59,6 +59,8 @@ type interpreter struct {
 	funcCache map[string]*ssa.Function
 	syncMaps  map[*value]*omap
 	maxSteps0 int64
+	loopCutFn string
+	loopCutN  int
 	srcCache  map[string][]string
 	srcRoot   string
 	touched   map[*ssa.Function]bool // functions executed during exploration (for evidence)
@@ -636,6 +638,10 @@ func (fr *frame) runFrame() {
 			fr.visits = make([]int, len(fr.fn.Blocks))
 		}
 		fr.visits[fr.block.Index]++
+		if i.loopCutN > 0 && fr.visits[fr.block.Index] > i.loopCutN && !i.initMode && strings.Contains(fr.fn.String(), i.loopCutFn) {
+			i.ex.stats.LoopCuts++
+			panic(pathEnd{kind: "assume", msg: "loop-cut"})
+		}
 		if fr.visits[fr.block.Index] > i.loopBound && !i.initMode {
 			panic(pathEnd{kind: "unwind", msg: fmt.Sprintf("loop bound %d exceeded in block %d", i.loopBound, fr.block.Index), site: fr.site()})
 		}
